@@ -323,6 +323,8 @@ pub enum ROp {
     Add(u8, u8, Cand, Render),
     Evict(u16),
     Fail(u16),
+    /// a listed peer (picked by index) is added again under new contact details
+    ReAdd(u16, Cand, Render),
 }
 #[derive(Debug, Clone, Serialize, Deserialize)]
 pub struct RCase {
@@ -387,6 +389,39 @@ fn run_routing(c: &RCase) -> Verdict {
                         (false, Some(_)) => capped = true,
                     }
                 }
+                ROp::ReAdd(i, cand, rend) => {
+                    if table.is_empty() {
+                        continue;
+                    }
+                    let pos = idx(*i, table.len());
+                    let (id, old_ip, bucket) = table[pos];
+                    let ip = cand_ip(cand);
+                    let addr = render(ip, rend);
+                    let res = eng.add_node(NodeInfo { id: NodeId::from_bytes(id), address: addr.clone(), last_seen: SystemTime::now(), capacity: NodeCapacity::default() }).await;
+                    // model: the old entry's slots are given back, then the new details are judged like a newcomer's
+                    table.remove(pos);
+                    m.bump(old_ip, None, false);
+                    if let Some(c) = regions.get_mut(&region_name(old_ip)) {
+                        *c = c.saturating_sub(1);
+                    }
+                    let block = m.can_accept(&cfg, ip, None, false);
+                    let region_full = *regions.get(&region_name(ip)).unwrap_or(&0) >= 50;
+                    match (res.is_ok(), block) {
+                        (true, Some(level)) => v.fail(format!("{ID}/DhtCoreEngine::add_node/re-added-peer-admitted-at-or-above-cap/{level}"), format!("step {step}: peer moved from {old_ip} to '{addr}': levels {:?}", m.levels(&cfg, ip, None, false))),
+                        (true, None) => {
+                            m.bump(ip, None, true);
+                            *regions.entry(region_name(ip)).or_insert(0) += 1;
+                            table.push((id, ip, bucket));
+                        }
+                        (false, None) => {
+                            if !region_full {
+                                v.fail(format!("{ID}/DhtCoreEngine::add_node/re-added-peer-refused-although-every-level-is-below-cap"), format!("step {step}: peer moved from {old_ip} to '{addr}': levels {:?}", m.levels(&cfg, ip, None, false)));
+                            }
+                        }
+                        (false, Some(_)) => capped = true,
+                    }
+                    removal_after_cap |= capped;
+                }
                 ROp::Evict(i) | ROp::Fail(i) => {
                     if !table.is_empty() {
                         let (id, ip, _) = table.remove(idx(*i, table.len()));
@@ -409,6 +444,7 @@ fn run_routing(c: &RCase) -> Verdict {
             if stats_maxima(&st) != m.maxima() {
                 let kind = match op {
                     ROp::Add(..) => "after-add",
+                    ROp::ReAdd(..) => "after-re-add-of-a-listed-peer",
                     _ => "after-removal",
                 };
                 v.fail(format!("{ID}/DhtCoreEngine/ip-slot-counters-differ-from-admitted-nodes/{kind}"), format!("step {step} {op:?}: counters {:?}, admitted nodes give {:?}", stats_maxima(&st), m.maxima()));
@@ -506,7 +542,7 @@ pub fn run(run: &Run) {
     run.prop("enforcer", run.tier.pick(2000, 40_000), sh, ecase, run_enforcer);
 
     let rend = prop_oneof![3 => Just(Render::SocketAddr), 1 => Just(Render::BareIp), 2 => Just(Render::LibraryDisplay)];
-    let rop = prop_oneof![8 => (0u8..6, any::<u8>(), cand(), rend).prop_map(|(b, s, c, r)| ROp::Add(b, s, c, r)), 2 => any::<u16>().prop_map(ROp::Evict), 2 => any::<u16>().prop_map(ROp::Fail)];
+    let rop = prop_oneof![8 => (0u8..6, any::<u8>(), cand(), rend.clone()).prop_map(|(b, s, c, r)| ROp::Add(b, s, c, r)), 2 => any::<u16>().prop_map(ROp::Evict), 2 => any::<u16>().prop_map(ROp::Fail), 3 => (any::<u16>(), cand(), rend).prop_map(|(i, c, r)| ROp::ReAdd(i, c, r))];
     let rcase = prop::collection::vec(rop, 1..run.tier.pick(60usize, 400)).prop_map(|ops| RCase { ops });
     run.prop("routing", run.tier.pick(500, 8000), sh, rcase, run_routing);
 
